@@ -335,7 +335,7 @@ func run(c *lib.Ctx) {
 	c.Assume("main chain only (real-recipient differs from recipient only on parachains)",
 		"proxied transactions: eth-signed outer transaction to the configured proxy address carrying an inner coins transfer (the evm executor itself is not part of this repository); delayed transactions: submitted through EventAddDelayTx (the block-embedded none/CommitDelayTx route is not driven)",
 		"the pool of this repository refuses every transaction of the evm executor (ErrExecNameNotAllow: the evm plugin is not part of it), so for evm-shaped and proxied transactions only the block-execution clause is decided; the pool clause is vacuous for them")
-	n := c.N(900, 30000)
+	n := c.N(900, 150000)
 	per := 150
 	nb := (n + per - 1) / per
 	lib.Parallel(nb, 12, func(bi int) {
